@@ -24,6 +24,9 @@ func (e *Exec) RunFunction(fn *ssa.Function) (err error) {
 		}
 	}()
 	e.Root = fn
+	if c := e.contractOf(fn); c != nil && c.Options["exact"] {
+		e.Opt.Exact = true
+	}
 	e.lines = append(e.lines, Prelude)
 	st := &State{pc: True, heap: map[string]*Term{}}
 	a0 := e.fresh(SInt, "alloc0")
@@ -129,6 +132,9 @@ func (e *Exec) execFunc(fr *Frame, in *State) (*State, Value) {
 					}
 				}
 				fr.vals[phi] = e.nameValue(v)
+				if e.Opt.Exact {
+					e.mergeExact(fr, phi, b, ins)
+				}
 			}
 		}
 		if isHeader {
@@ -763,5 +769,41 @@ func (e *Exec) frameCandidates(fr *Frame, h *ssa.BasicBlock, phis []*ssa.Phi, in
 		}
 		add("frame-up:"+comp, true, mk(true))
 		add("frame-down:"+comp, true, mk(false))
+	}
+}
+
+// mergeExact: exact value of a phi = merge of the exact values of its edges.
+func (e *Exec) mergeExact(fr *Frame, phi *ssa.Phi, b *ssa.BasicBlock, ins []edge) {
+	if _, ok := intInfoOf(phi.Type()); !ok {
+		return
+	}
+	any := false
+	var m *Term
+	for i := len(ins) - 1; i >= 0; i-- {
+		var ev ssa.Value
+		for k, p := range b.Preds {
+			if p == ins[i].from {
+				ev = phi.Edges[k]
+			}
+		}
+		if ev == nil {
+			return
+		}
+		mt, ok := e.val(fr, ev).(*Term)
+		if !ok {
+			return
+		}
+		ex := e.exOf(fr, ev, mt)
+		if ex.S != mt.S {
+			any = true
+		}
+		if m == nil {
+			m = ex
+		} else {
+			m = Ite(ins[i].st.pc, ex, m)
+		}
+	}
+	if any && m != nil {
+		e.setExact(fr, phi, m)
 	}
 }
